@@ -61,6 +61,32 @@ func (r *Run) entrySetSeq(sid int) uint64 {
 	return 0
 }
 
+// listedWhen: did the variant index, as last written before sequence point seq, name the entry that holds
+// the response sid?
+func (r *Run) listedWhen(sid int, seq uint64) bool {
+	key := ""
+	for _, s := range r.Store {
+		if s.Kind == "set" && s.Applied && !s.IsIndex && s.SeqRet < seq {
+			for _, x := range s.SIDs {
+				if x == sid {
+					key = s.Key
+				}
+			}
+		}
+	}
+	i := strings.LastIndex(key, "#")
+	if i < 0 {
+		return false
+	}
+	var last *StoreOp
+	for _, s := range r.Store {
+		if (s.Kind == "set" || s.Kind == "delete") && s.Applied && s.Key == key[:i] && s.SeqRet != 0 && s.SeqRet < seq {
+			last = s
+		}
+	}
+	return last != nil && last.Kind == "set" && bytes.Contains(last.Val, []byte(jsonEsc(key)))
+}
+
 func judgeInvalidation(r *Run, j *Judged, cl []*cls) {
 	for _, cu := range cl {
 		u := cu.e
@@ -119,10 +145,12 @@ func judgeInvalidation(r *Run, j *Judged, cl []*cls) {
 			overlapping := false
 			for _, o := range r.Calls {
 				if o.Res == cx.B.Res && safeMethods[o.Req.Method] && o.SeqStart < u.SeqRet && r.lastSeqOfLineage(o) > u.SeqInv {
-					if o.Resp != nil && !o.Resp.Is304 && o.Ended && o != cx.B.Call {
+					if o.Resp != nil && !o.Resp.Is304 && o.Ended && o != cx.B.Call && r.listedWhen(cx.B.SID, u.SeqInv) {
 						// a full reply in flight across the unsafe request stores *its own* response (and may write an
 						// index that still lists B's record): it cannot bring B's entry back, which the
-						// invalidation has deleted - B served afterwards has survived the invalidation
+						// invalidation has deleted - B served afterwards has survived the invalidation. (Only where
+						// the index named B's entry when the unsafe request began: an entry that an earlier lost
+						// update of the index had already made unreachable is not the invalidation's to find.)
 						continue
 					}
 					if o.Resp != nil && o.Resp.Is304 && !o.Resp.Bare && o.Ended && o.Resp.SeqResp > u.SeqRet {
